@@ -454,6 +454,9 @@ static int run_cmd(char *op, int *a, int na) {
 
 /* one behaviour = array of lines */
 static char **lines; static int nlines, caplines;
+/* watchdog per behaviour: 10 s; once behaviours of this run have hung (the tree under test loops) the following ones get 3 s, then
+ * 1 s - a healthy behaviour takes milliseconds, and a tree that hangs thousands of behaviours must not cost hours */
+static unsigned watchdog_s = 10; static int nhang;
 static void on_alarm(int s) { (void)s; static const char m[] = "; hang\n"; if (write(1, m, sizeof m - 1)) {} _exit(80); }
 
 void __sanitizer_set_death_callback(void (*cb)(void));
@@ -461,7 +464,7 @@ static void on_death(void) { puts(" ; died"); fflush(stdout); }
 static void run_behaviour(void) {
     __sanitizer_set_death_callback(on_death);
     signal(SIGALRM, on_alarm);
-    alarm(10);
+    alarm(watchdog_s);
     for (int li = 0; li < nlines; li++) {
         char *ln = lines[li]; char op[32]; int a[1100]; int na = 0;
         char *p = ln; int k = 0;
@@ -522,6 +525,7 @@ int main(int argc, char **argv) {
             pid_t pid = fork();
             if (pid == 0) { run_behaviour(); fflush(stdout); _exit(0); }
             int st = 0; waitpid(pid, &st, 0);
+            if (WIFEXITED(st) && WEXITSTATUS(st) == 80) { nhang++; watchdog_s = nhang < 3 ? 10 : nhang < 10 ? 3 : 1; }
             if (WIFEXITED(st) && WEXITSTATUS(st) == 0) printf("E %ld ok\n", cur);
             else if (WIFEXITED(st)) { printf("\nE %ld exit%d\n", cur, WEXITSTATUS(st)); fprintf(stderr, "== behaviour %ld exit %d\n", cur, WEXITSTATUS(st)); }
             else { printf("\nE %ld sig%d\n", cur, WTERMSIG(st)); fprintf(stderr, "== behaviour %ld signal %d\n", cur, WTERMSIG(st)); }
